@@ -1,5 +1,210 @@
-import Luqum.Model.Naming
+/-
+  C15 — `auto_name` gives distinct names to the operands of operations, mapped to their paths.
+
+  For a tree `t` none of whose elements carries a name, `auto_name` never fails; afterwards the
+  elements that carry a name are exactly the direct operands of the operations of the tree (or the
+  root alone when no operation has an operand), the tree is otherwise unchanged, the returned mapping
+  is exactly `name ↦ path` for those elements (and `element_from_path` retrieves them), and all names
+  are distinct whatever the number of operands (also beyond the 50 one-letter names).
+
+  Property theorems only; the inductions are in `Luqum/Lemmas/AutoName.lean`, the path vocabulary
+  (`isOperand`, `named`) in `Luqum/Lemmas/NamedPaths.lean`.
+-/
+import Luqum.Lemmas.AutoName
+
 namespace Luqum.Props.C15
-open Luqum
-theorem first_name : nextName none = some ['a'] := by decide
+open Luqum Luqum.Lemmas.NamedPaths Luqum.Lemmas.AutoName
+
+/-! ### tie to the source: the generated alphabet -/
+
+/-- **Translator obligation** on the generated `LETTERS` / `_pos_letter`: the first letter has a
+recorded position; every recorded position `p` is smaller than the number of letters and the letter
+following position `p`, if any, is recorded at a position `> p`. This is what makes `next_name`
+total on the names it produces and strictly increasing for the rank
+`(length - 1) * |LETTERS| + position of the last letter`
+(the alphabet has `l` twice and no `j`: `_pos_letter['l']` is the later index 11, so after `i` (8)
+comes `l`, then `m` (12): `k` and one `l` are skipped, which is harmless). -/
+theorem alphabet_ok : alphaOk = true := by decide
+
+/-- the first names, and the roll-over to two letters after the last letter -/
+example : nextName none = some ['a'] := by decide
+example : nextName (some ['i']) = some ['l'] := by decide
+example : nextName (some ['l']) = some ['m'] := by decide
+example : nextName (some ['Z']) = some ['Z', 'a'] := by decide
+example : nextName (some ['a', 'Z']) = some ['a', 'Z', 'a'] := by decide
+/-- a letter outside the alphabet would raise (`KeyError`): never reached, see `next_name_total` -/
+example : nextName (some ['j']) = none := by decide
+
+/-- the successor on names never fails on a name it produced, and strictly increases the rank -/
+theorem next_name_total (o : Option Str) (ho : ∀ l, o = some l → nameOk l) :
+    ∃ nm, nextName o = some nm ∧ nameOk nm ∧ lastRank o ≤ rank nm :=
+  nextName_spec alphabet_ok o ho
+
+/-! ### vocabulary -/
+
+/-- the hypothesis "no element of `t` carries a name", in terms of `element_from_path` -/
+theorem noNames_iff (t : Tree) :
+    noNames t = true ↔ ∀ p n, t.at? p = some n → n.lay.name = none := noNames_iff_at t
+
+/-- "`p` leads to a direct operand of an operation", in terms of `element_from_path` -/
+theorem isOperand_meaning (t : Tree) (p : List Nat) :
+    isOperand t p = true ↔
+      ∃ q i k xs l, p = q ++ [i] ∧ t.at? q = some (.op k xs l) ∧ i < xs.length := isOperand_iff t p
+
+/-- "some operation of `t` has an operand", in terms of `element_from_path` -/
+theorem hasOperand_meaning (t : Tree) :
+    hasOperand t = true ↔ ∃ q k x xs l, t.at? q = some (.op k (x :: xs) l) := by
+  rw [hasOperand_iff]
+  constructor
+  · rintro ⟨p, hp⟩
+    obtain ⟨q, i, k, xs, l, -, hq, hi⟩ := (isOperand_iff t p).1 hp
+    cases xs with
+    | nil => simp at hi
+    | cons x xs => exact ⟨q, k, x, xs, l, hq⟩
+  · rintro ⟨q, k, x, xs, l, hq⟩
+    exact ⟨q ++ [0], (isOperand_iff t _).2 ⟨q, 0, k, x :: xs, l, rfl, hq, by simp⟩⟩
+
+/-- the named elements: `p ∈ named t` iff `p` is an operand of an operation, or the root when no
+operation has an operand -/
+theorem named_meaning (t : Tree) (p : List Nat) :
+    p ∈ named t ↔ isOperand t p = true ∨ (p = [] ∧ hasOperand t = false) := mem_named t p
+
+/-! ### the property -/
+
+/-- **`auto_name` never fails** on a tree without names (whatever the number of operands). -/
+theorem autoName_total (t : Tree) (hn : noNames t = true) : autoName t ≠ none := by
+  obtain ⟨t', m, h, -⟩ := autoName_core alphabet_ok t hn
+  simp [h]
+
+/-- **1a. Naming changes nothing but names**: erasing all names of the result (`Tree.copy`, the deep
+copy that drops names) gives back `t`. -/
+theorem only_names_change (t t' : Tree) (m : List (Str × List Nat)) (hn : noNames t = true)
+    (h : autoName t = some (t', m)) : t'.copy = t := by
+  obtain ⟨t'', m', h', hc, -⟩ := autoName_core alphabet_ok t hn
+  rw [h] at h'; cases h'; exact hc
+
+/-- **1b. The elements that carry a name are exactly the direct operands of operations**, or the
+root alone when no operation has an operand. -/
+theorem named_exactly_operands (t t' : Tree) (m : List (Str × List Nat)) (hn : noNames t = true)
+    (h : autoName t = some (t', m)) (p : List Nat) :
+    (∃ n nm, t'.at? p = some n ∧ n.lay.name = some nm) ↔
+      (∃ q i k xs l, p = q ++ [i] ∧ t.at? q = some (.op k xs l) ∧ i < xs.length) ∨
+      (p = [] ∧ ¬ ∃ q k x xs l, t.at? q = some (.op k (x :: xs) l)) := by
+  obtain ⟨t'', m', h', -, hnm, -⟩ := autoName_core alphabet_ok t hn
+  rw [h] at h'; cases h'
+  rw [← isOperand_iff, ← hasOperand_meaning, Bool.not_eq_true, ← mem_named, ← hnm p,
+    Option.isSome_iff_exists]
+  constructor
+  · rintro ⟨n, nm, h1, h2⟩; exact ⟨nm, (nameAt_eq_some _ _ _).2 ⟨n, h1, h2⟩⟩
+  · rintro ⟨nm, h1⟩; obtain ⟨n, h2, h3⟩ := (nameAt_eq_some _ _ _).1 h1; exact ⟨n, nm, h2, h3⟩
+
+/-- the same with the list `named t` (the vocabulary of C16) -/
+theorem named_exactly_named (t t' : Tree) (m : List (Str × List Nat)) (hn : noNames t = true)
+    (h : autoName t = some (t', m)) (p : List Nat) :
+    (∃ n nm, t'.at? p = some n ∧ n.lay.name = some nm) ↔ p ∈ named t := by
+  rw [named_exactly_operands t t' m hn h p, ← isOperand_iff, ← hasOperand_meaning,
+    Bool.not_eq_true, mem_named]
+
+/-- **2. The mapping is exactly `name ↦ path` of the named elements** (`element_from_path` on the
+recorded path retrieves the element that carries the name), and contains nothing else. -/
+theorem mapping_exact (t t' : Tree) (m : List (Str × List Nat)) (hn : noNames t = true)
+    (h : autoName t = some (t', m)) (nm : Str) (p : List Nat) :
+    (nm, p) ∈ m ↔ ∃ n, t'.at? p = some n ∧ n.lay.name = some nm := by
+  obtain ⟨t'', m', h', -, -, hm, -⟩ := autoName_core alphabet_ok t hn
+  rw [h] at h'; cases h'
+  rw [hm, nameAt_eq_some]
+
+/-- the paths recorded in the mapping are exactly the named elements `named t` -/
+theorem mapping_paths (t t' : Tree) (m : List (Str × List Nat)) (hn : noNames t = true)
+    (h : autoName t = some (t', m)) (p : List Nat) :
+    p ∈ m.map (·.2) ↔ p ∈ named t := by
+  rw [← named_exactly_named t t' m hn h p]
+  simp only [List.mem_map, Prod.exists, exists_eq_right]
+  constructor
+  · rintro ⟨nm, hm⟩
+    obtain ⟨n, h1, h2⟩ := (mapping_exact t t' m hn h nm p).1 hm; exact ⟨n, nm, h1, h2⟩
+  · rintro ⟨n, nm, h1, h2⟩; exact ⟨nm, (mapping_exact t t' m hn h nm p).2 ⟨n, h1, h2⟩⟩
+
+/-- **3. All names are distinct**, whatever the number of operands. -/
+theorem names_distinct (t t' : Tree) (m : List (Str × List Nat)) (hn : noNames t = true)
+    (h : autoName t = some (t', m)) : (m.map (·.1)).Pairwise (· ≠ ·) := by
+  obtain ⟨t'', m', h', -, -, -, hd⟩ := autoName_core alphabet_ok t hn
+  rw [h] at h'; cases h'
+  rw [List.pairwise_map]; exact hd
+
+/-- … and so are the recorded paths: the mapping is a bijection names ↔ named elements -/
+theorem paths_distinct (t t' : Tree) (m : List (Str × List Nat)) (hn : noNames t = true)
+    (h : autoName t = some (t', m)) : (m.map (·.2)).Pairwise (· ≠ ·) := by
+  obtain ⟨t'', m', h', -, -, hm, hd⟩ := autoName_core alphabet_ok t hn
+  rw [h] at h'; cases h'
+  rw [List.pairwise_map]
+  refine List.Pairwise.imp_of_mem ?_ hd
+  intro a b ha hb hab heq
+  have h1 := (hm a.1 a.2).1 ha
+  have h2 := (hm b.1 b.2).1 hb
+  rw [heq, h2] at h1
+  exact hab (Option.some.inj h1).symm
+
+/-- **4. When some operation has an operand, the root is not named.** -/
+theorem root_not_named (t t' : Tree) (m : List (Str × List Nat)) (hn : noNames t = true)
+    (h : autoName t = some (t', m)) (hop : ∃ q k x xs l, t.at? q = some (.op k (x :: xs) l)) :
+    t'.lay.name = none := by
+  cases hnm : t'.lay.name with
+  | none => rfl
+  | some nm =>
+    have := (named_exactly_operands t t' m hn h []).1 ⟨t', nm, at?_nil t', hnm⟩
+    rcases this with ⟨q, i, k, xs, l, hp, -⟩ | ⟨-, hno⟩
+    · simp at hp
+    · exact absurd hop hno
+
+/-- … and when no operation has an operand, the root alone is named (with the first name) -/
+theorem root_alone (t t' : Tree) (m : List (Str × List Nat)) (hn : noNames t = true)
+    (h : autoName t = some (t', m)) (hop : ¬ ∃ q k x xs l, t.at? q = some (.op k (x :: xs) l)) :
+    ∃ nm, m = [(nm, [])] ∧ t'.lay.name = some nm := by
+  obtain ⟨n, nm, h1, h2⟩ := (named_exactly_operands t t' m hn h []).2 (Or.inr ⟨rfl, hop⟩)
+  simp [at?_nil] at h1; subst h1
+  refine ⟨nm, ?_, h2⟩
+  have hmem : ∀ e, e ∈ m ↔ e = (nm, []) := by
+    rintro ⟨nm', p⟩
+    rw [mapping_exact t t' m hn h]
+    constructor
+    · rintro ⟨n', h3, h4⟩
+      rcases (named_exactly_operands t t' m hn h p).1 ⟨n', nm', h3, h4⟩ with
+        ⟨q, i, k, xs, l, -, hq, hi⟩ | ⟨rfl, -⟩
+      · cases xs with
+        | nil => simp at hi
+        | cons x xs => exact absurd ⟨q, k, x, xs, l, hq⟩ hop
+      · simp [at?_nil] at h3; subst h3; rw [h2] at h4; cases h4; rfl
+    · rintro ⟨rfl, rfl⟩; exact ⟨t', at?_nil t', h2⟩
+  have hd := names_distinct t t' m hn h
+  match m, hmem, hd with
+  | [], hmem, _ => exact absurd ((hmem (nm, [])).2 rfl) (by simp)
+  | [e], hmem, _ => rw [(hmem e).1 (by simp)]
+  | e1 :: e2 :: r, hmem, hd =>
+    have h1 := (hmem e1).1 (by simp)
+    have h2 := (hmem e2).1 (by simp)
+    subst h1 h2
+    simp at hd
+
+/-! ### non-vacuity -/
+
+private def w (c : Char) : Tree := .term .word [c] {}
+/-- `(x AND y) OR z` -/
+private def sample : Tree := .op .or [.group .group (.op .and [w 'x', w 'y'] {}) {}, w 'z'] {}
+
+example : noNames sample = true := by decide
+example : (autoName sample).map (·.2) =
+    some [(['a'], [0]), (['b'], [1]), (['c'], [0, 0, 0]), (['d'], [0, 0, 1])] := by decide
+example : named sample = [[0], [1], [0, 0, 0], [0, 0, 1]] := by decide
+/-- a tree without operation: the root is named -/
+example : (autoName (w 'x')).map (·.2) = some [(['a'], [])] := by decide
+example : named (w 'x') = [[]] := by decide
+/-- an operation without operand: the root is named too -/
+example : (autoName (.op .and [] {})).map (·.2) = some [(['a'], [])] := by decide
+/-- 60 operands: more than the 50 one-letter names (the alphabet has 52 letters, `k` and one `l` are
+skipped); the 51st name is `Za` -/
+private def big : Tree := .op .or (List.replicate 60 (w 'x')) {}
+example : (autoName big).map (fun r => (r.2.drop 48).take 4) =
+    some [(['Y'], [48]), (['Z'], [49]), (['Z', 'a'], [50]), (['Z', 'b'], [51])] := by decide +kernel
+
 end Luqum.Props.C15
